@@ -194,7 +194,11 @@ func (th *Thread) callSSA(caller *frame, pos token.Pos, fn *ssa.Function, args [
 		fr.depth = caller.depth + 1
 	}
 	if fr.depth > maxDepth {
-		r.end("budget", "call depth exceeded in %s (possible non-termination)", fn)
+		// Sizes in the harnesses are tiny (a handful of nodes/elements): a call chain this deep on a
+		// feasible path is runaway recursion in the code under test. Reported as a violation and
+		// confirmed natively (stack overflow or no progress), never as a silent truncation.
+		r.violation(r.H.Name+"/non-termination", fmt.Sprintf("call depth %d exceeded in %s: runaway recursion", maxDepth, fn), pos)
+		r.end("nonterm", "call depth exceeded in %s", fn)
 	}
 	for i, p := range fn.Params {
 		fr.env[p] = args[i]
@@ -360,7 +364,8 @@ func (th *Thread) visit(fr *frame, instr ssa.Instruction) cont {
 	r := th.R
 	r.steps++
 	if r.steps > maxSteps {
-		r.end("budget", "step budget exceeded (possible non-termination) in %s", fr.fn)
+		r.violation(r.H.Name+"/non-termination", fmt.Sprintf("step budget %d exceeded in %s: the path does not terminate within the unwinding bound", maxSteps, fr.fn), token.NoPos)
+		r.end("nonterm", "step budget exceeded in %s", fr.fn)
 	}
 	if r.dead {
 		panic(pathEnd{Kind: "dead"})
